@@ -1,7 +1,7 @@
 """R-ORDERED (ordered accessors: definitions and raw uses), R-LEVELS, R-EXPNUM."""
 import ast
 
-from ..core import AnalysisError, path, unparse, norm_test, facts_at, walk_own
+from ..core import AnalysisError, Unrecognised, path, unparse, norm_test, facts_at, walk_own
 from ..events import name_defs, single_def
 from ..report import Ob
 
@@ -58,79 +58,101 @@ RAW_OK = {
 }
 
 
+def _key_kind(prog, f, k):
+    """'leftmost' / 'other' / None(unknown) for a sort key expression of children()."""
+    if k is None:
+        return None
+    if isinstance(k, ast.Lambda):
+        if _leftmost_key(k, prog, f):
+            return 'leftmost'
+        s = unparse(k.body)
+        if '[-1]' in s or 'max(' in s:
+            return 'other'
+        return None
+    if isinstance(k, ast.Name) and k.id in f.module.funcs and k.id not in f.locals:
+        g = f.module.funcs[k.id]
+        rets = _returns(g)
+        if len(rets) == 1 and len(g.params) == 1 and rets[0].value is not None:
+            lam = ast.Lambda(args=ast.arguments(posonlyargs=[], args=[ast.arg(arg=g.params[0])], kwonlyargs=[],
+                                                kw_defaults=[], defaults=[]), body=rets[0].value)
+            return _key_kind(prog, g, lam)
+    return None
+
+
+def _num_sorted(v):
+    """v is sorted(<x>, key=lambda t: t.data['num']) without reverse"""
+    return isinstance(v, ast.Call) and isinstance(v.func, ast.Name) and v.func.id == 'sorted' and len(v.args) == 1 \
+        and _kw(v, 'reverse') is None and _num_key(_kw(v, 'key'))
+
+
 def r_ordered(prog, tier):
     obs = []
     T = prog.modules['trees']
-    # ---- (a) definitions
+    # ---- (a) definitions (ok: recognised good form; violated: recognised bad form; else undecided)
     f = prog.func('trees', 'children')
     rets = _returns(f)
-    ok = False
-    why = 'children() must return sorted(<tree>.children, key=<number of leftmost token>)'
-    if len(rets) == 1 and isinstance(rets[0].value, ast.Call):
+    ok = None
+    why = 'children() has a shape this rule does not recognise'
+    src = unparse(f.node)
+    if len(rets) == 1 and isinstance(rets[0].value, ast.Call) and isinstance(rets[0].value.func, ast.Name) \
+            and rets[0].value.func.id == 'sorted' and len(rets[0].value.args) == 1 \
+            and unparse(rets[0].value.args[0]) == '%s.children' % f.params[0]:
         c = rets[0].value
-        if isinstance(c.func, ast.Name) and c.func.id == 'sorted' and len(c.args) == 1 \
-                and unparse(c.args[0]) == '%s.children' % f.params[0] and _kw(c, 'reverse') is None \
-                and _leftmost_key(_kw(c, 'key'), prog, f):
-            ok = True
-            why = 'returns sorted(%s.children) keyed by the number of the leftmost token' % f.params[0]
+        kind = _key_kind(prog, f, _kw(c, 'key'))
+        if _kw(c, 'reverse') is not None:
+            ok, why = False, 'children are sorted in reverse'
+        elif kind == 'leftmost':
+            ok, why = True, 'returns sorted(%s.children) keyed by the number of the leftmost token' % f.params[0]
+        elif kind == 'other':
+            ok, why = False, 'children are ordered by something else than their leftmost token'
+    elif 'sorted(' not in src and '.sort(' not in src:
+        ok, why = False, 'children() returns the stored order (no sort at all)'
+    elif '.sort(' in src:
+        ok, why = False, 'children() sorts the stored list in place: callers that hold the list see it change, and ' \
+                         'code reading .children relies on an earlier call'
     obs.append(Ob('R-ORDERED/DEF', f.fq, 'children() orders by leftmost token', ok, why,
                   construct='def-children', line=f.node.lineno))
     f = prog.func('trees', 'terminals')
     rets = _returns(f)
-    cfg = f.cfg
-    good = []
+    P = f.params[0]
+    ok = None
+    why = 'terminals() has a shape this rule does not recognise'
+    rec = any(isinstance(n, ast.Call) and prog.callee(n, f) == ('trees', 'terminals') for n in walk_own(f.node))
+    over_children = any(isinstance(n, (ast.For, ast.comprehension)) and unparse(n.iter) == '%s.children' % P
+                        for n in walk_own(f.node))
+    kinds = []
     for r in rets:
         v = r.value
-        node = cfg.node_of(r)
-        facts = [x[0] for x in facts_at(cfg, node)]
-        leaf = ('cmp', 'len(%s.children)' % f.params[0], '==', '0') in facts or \
-               ('opaque', 'has_children(%s)' % f.params[0], False) in facts
-        if leaf:
-            good.append(isinstance(v, ast.List) and len(v.elts) == 1 and unparse(v.elts[0]) == f.params[0])
+        if isinstance(v, ast.List) and len(v.elts) == 1 and unparse(v.elts[0]) == P:
+            kinds.append('leaf')
+        elif _num_sorted(v):
+            kinds.append('sorted')
+        elif isinstance(v, ast.Call) and isinstance(v.func, ast.Name) and v.func.id == 'sorted':
+            kinds.append('sorted-other')
+        elif isinstance(v, ast.Name):
+            kinds.append('unsorted-name')
         else:
-            g = isinstance(v, ast.Call) and isinstance(v.func, ast.Name) and v.func.id == 'sorted' \
-                and _kw(v, 'reverse') is None and _num_key(_kw(v, 'key')) and len(v.args) == 1 \
-                and isinstance(v.args[0], ast.Name)
-            if g:
-                # the sorted list collects terminals(child) for every stored child
-                res = v.args[0].id
-                coll = False
-                for n in cfg.eval_nodes():
-                    if n.kind == 'stmt':
-                        for sub in walk_own(n.ast):
-                            if isinstance(sub, ast.Call) and isinstance(sub.func, ast.Attribute) \
-                                    and sub.func.attr == 'extend' and path(sub.func.value) == res \
-                                    and sub.args and prog.callee(sub.args[0], f) == ('trees', 'terminals') \
-                                    and n.loops:
-                                it = cfg.nodes[n.loops[-1]]
-                                if it.kind == 'iter' and unparse(it.ast.iter) == '%s.children' % f.params[0] \
-                                        and unparse(sub.args[0].args[0]) == unparse(it.ast.target) \
-                                        and cfg.in_every_iteration(it.id, n.id):
-                                    # unconditional inside the loop body
-                                    coll = True
-                g = coll
-            good.append(bool(g))
-    ok = bool(rets) and all(good)
-    obs.append(Ob('R-ORDERED/DEF', f.fq, 'terminals() returns the tokens sorted by number', ok,
-                  'leaf returns [tree]; otherwise sorted(collected terminals of all children, key=num)' if ok else
-                  'a return of terminals() is not the sorted collection of all children\'s terminals',
+            kinds.append('?')
+    if rec and over_children and sorted(set(kinds)) == ['leaf', 'sorted']:
+        ok, why = True, 'leaf returns [tree]; otherwise the terminals of all children, sorted by token number'
+    elif 'unsorted-name' in kinds or 'sorted-other' in kinds:
+        ok, why = False, 'a return of terminals() hands back the collected tokens without sorting them by number'
+    obs.append(Ob('R-ORDERED/DEF', f.fq, 'terminals() returns the tokens sorted by number', ok, why,
                   construct='def-terminals', line=f.node.lineno))
     for nm, first in (('preorder', True), ('postorder', False)):
         f = prog.func('trees', nm)
         cfg = f.cfg
-        ys = [y for y in _yields(f) if isinstance(y, ast.Yield) and y.value is not None
-              and unparse(y.value) == f.params[0]]
+        P = f.params[0]
+        ys = [y for y in _yields(f) if isinstance(y, ast.Yield) and y.value is not None and unparse(y.value) == P]
         loops = [n for n in cfg.eval_nodes() if n.kind == 'iter' and not n.loops]
-        ok = False
-        why = '%s() must yield its argument exactly once, %s recursing over children(tree)' \
-              % (nm, 'before' if first else 'after')
-        if len(ys) == 1 and len(loops) == 1:
-            yn = cfg.node_of(ys[0])
+        ok = None
+        why = '%s() has a shape this rule does not recognise' % nm
+        if len(ys) >= 1 and len(loops) == 1:
             ln = loops[0]
             it = ln.ast.iter
-            ordered = prog.callee(it, f) == ('trees', 'children') and unparse(it.args[0]) == f.params[0] \
-                if isinstance(it, ast.Call) else False
-            noloop = not cfg.nodes[yn].loops
+            ordered = isinstance(it, ast.Call) and prog.callee(it, f) == ('trees', 'children') and unparse(it.args[0]) == P
+            raw = unparse(it) == '%s.children' % P
+            yns = [cfg.node_of(y) for y in ys]
             rec = False
             for n in cfg.eval_nodes():
                 if ln.id in n.loops:
@@ -139,30 +161,39 @@ def r_ordered(prog, tier):
                             if isinstance(sub, ast.Call) and prog.callee(sub, f) == ('trees', nm) \
                                     and sub.args and unparse(sub.args[0]) == unparse(ln.ast.target):
                                 rec = True
-            # every other yield re-yields what the recursion produced
-            others = [y for y in _yields(f) if y is not ys[0]]
-            inner = all(ln.id in cfg.nodes[cfg.node_of(y)].loops for y in others)
-            order = (cfg.dominates(yn, ln.id) and first) or (cfg.dominates(ln.id, yn) and not first
-                                                             and cfg.postdominates(yn, ln.id))
-            uncond = cfg.always_with(cfg.entry, yn)
-            if ordered and noloop and rec and inner and order and uncond:
-                ok = True
-                why = 'yields `%s` once (unconditionally, outside loops) %s the loop over children(%s) that ' \
-                      're-yields the recursion' % (f.params[0], 'before' if first else 'after', f.params[0])
+            if len(ys) > 1 or any(cfg.nodes[y].loops for y in yns):
+                ok, why = False, 'the node itself is yielded more than once (or inside the loop)'
+            elif raw:
+                ok, why = False, 'the traversal follows the stored child order, not the ordered children'
+            elif ordered and rec:
+                yn = yns[0]
+                before = cfg.dominates(yn, ln.id)
+                after = cfg.dominates(ln.id, yn) and cfg.postdominates(yn, ln.id)
+                uncond = cfg.always_with(cfg.entry, yn)
+                if not uncond:
+                    ok, why = False, 'the node itself is yielded only conditionally'
+                elif (first and before) or (not first and after):
+                    ok = True
+                    why = 'yields `%s` once %s the loop over children(%s) that re-yields the recursion' \
+                          % (P, 'before' if first else 'after', P)
+                elif (first and after) or (not first and before):
+                    ok, why = False, '%s() yields the node on the wrong side of its descendants' % nm
         obs.append(Ob('R-ORDERED/DEF', f.fq, '%s() visits the node itself once and the ordered children '
                       'recursively' % nm, ok, why, construct='def-' + nm, line=f.node.lineno))
     for nm in ('right_sibling', 'left_sibling'):
         f = prog.func('trees', nm)
-        ok = False
-        for n in walk_own(f.node):
-            if isinstance(n, ast.Assign) and isinstance(n.value, ast.Call) \
-                    and prog.callee(n.value, f) == ('trees', 'children') \
-                    and unparse(n.value.args[0]) == '%s.parent' % f.params[0]:
-                ok = True
+        ok = None
+        why = 'sibling lookup has a shape this rule does not recognise'
+        uses_ordered = any(isinstance(n, ast.Call) and prog.callee(n, f) == ('trees', 'children')
+                           and unparse(n.args[0]) == '%s.parent' % f.params[0] for n in walk_own(f.node))
+        uses_raw = any(isinstance(n, ast.Attribute) and n.attr == 'children' and unparse(n.value) == '%s.parent' % f.params[0]
+                       for n in walk_own(f.node))
+        if uses_raw:
+            ok, why = False, 'looks the node up in the stored child list of the parent'
+        elif uses_ordered:
+            ok, why = True, 'uses children(%s.parent)' % f.params[0]
         obs.append(Ob('R-ORDERED/DEF', f.fq, '%s() looks the node up in the ordered children of its parent' % nm,
-                      ok, 'uses children(%s.parent)' % f.params[0] if ok else
-                      'does not use the ordered accessor on the parent', construct='def-' + nm,
-                      line=f.node.lineno))
+                      ok, why, construct='def-' + nm, line=f.node.lineno))
     # ---- (b) raw uses of .children
     ncalls = 0
     for f in prog.all_funcs():
@@ -246,35 +277,75 @@ def r_levels(prog, tier):
         if n.kind == 'stmt' and isinstance(n.ast, ast.Assign) and isinstance(n.ast.targets[0], ast.Subscript):
             stores.append(n)
         if n.kind == 'stmt' and isinstance(n.ast, ast.Expr) and isinstance(n.ast.value, ast.Call) \
-                and isinstance(n.ast.value.func, ast.Attribute) and n.ast.value.func.attr == 'append':
+                and isinstance(n.ast.value.func, ast.Attribute) and n.ast.value.func.attr in ('append', 'setdefault'):
             stores.append(n)
     if not stores:
-        raise AnalysisError('trees.levels records nothing')
+        raise Unrecognised('trees.levels records nothing in a way this rule recognises')
     for n in stores:
         facts = [x[0] for x in facts_at(cfg, n.id)]
         g = any(fa[0] == 'opaque' and fa[1].startswith('has_children(') and fa[2] is True for fa in facts) or \
             any(fa[0] == 'cmp' and fa[1] == '0' and fa[2] == '<' and fa[3].startswith('len(') for fa in facts)
-        obs.append(Ob('R-LEVELS', f.fq, 'a level is recorded for constituents only: `%s`' % unparse(n.ast), g,
-                      'guarded by has_children(...)' if g else 'tokens would get a level and later an export '
-                      'number that overwrites their position', construct='lvl-store:' + unparse(n.ast),
-                      line=n.lineno))
+        hc_anywhere = any(isinstance(x, ast.Call) and prog.callee(x, f) == ('trees', 'has_children') for x in walk_own(f.node))
+        obs.append(Ob('R-LEVELS', f.fq, 'a level is recorded for constituents only: `%s`' % unparse(n.ast)[:60],
+                      True if g else (False if not hc_anywhere else None),
+                      'guarded by has_children(...)' if g else ('tokens would get a level and later an export number that '
+                      'overwrites their position' if not hc_anywhere else 'guard not recognised'),
+                      construct='lvl-store:' + unparse(n.ast), line=n.lineno))
     # the recorded level is a maximum over the paths to the tokens
     lv = None
     for n in stores:
         if isinstance(n.ast, ast.Assign) and isinstance(n.ast.value, ast.Name):
             lv = n.ast.value.id          # reverse_levels[subtree] = level
-    agg = False
+    verdict = None
+    why = 'the computation of the level has a shape this rule does not recognise'
     if lv:
-        for (nid, v) in name_defs(f, lv):
+        inloop = [(nid, v) for (nid, v) in name_defs(f, lv) if cfg.nodes[nid].loops and isinstance(v, ast.AST)
+                  and not isinstance(v, ast.Constant)]
+        good = 0
+        bad = []
+        for (nid, v) in inloop:
             if isinstance(v, ast.Call) and isinstance(v.func, ast.Name) and v.func.id == 'max':
-                agg = True
-    obs.append(Ob('R-LEVELS', f.fq, 'the level of a node is the maximum over its downward paths', agg,
-                  '`%s` is aggregated with max()' % lv if agg else 'no max() aggregation of the level found',
+                good += 1
+                continue
+            facts = [x[0] for x in facts_at(cfg, nid)]
+            vs = unparse(v)
+            if ('cmp', lv, '<', vs) in facts or ('cmp', lv, '<=', vs) in facts:
+                good += 1
+                continue
+            inner = len(cfg.nodes[nid].loops) >= 2
+            if inner:
+                bad.append(vs)
+        if bad:
+            verdict, why = False, '`%s = %s` inside the loop over paths without max() / comparison: the last path wins, ' \
+                                  'not the longest' % (lv, bad[0])
+        elif good:
+            verdict, why = True, '`%s` is aggregated with max() or a guarded update' % lv
+    obs.append(Ob('R-LEVELS', f.fq, 'the level of a node is the maximum over its downward paths', verdict, why,
                   construct='lvl-max', line=f.node.lineno))
     return obs, {}
 
 
 # ------------------------------------------------------------------------------------ R-EXPNUM
+
+def _is_leftmost_sorted(prog, f, call):
+    """sorted(X, key=<leftmost>) without reverse; key may be a lambda, a nested def or a module function"""
+    if not (isinstance(call, ast.Call) and isinstance(call.func, ast.Name) and call.func.id == 'sorted' and call.args):
+        return False
+    if _kw(call, 'reverse') is not None:
+        return False
+    k = _kw(call, 'key')
+    if isinstance(k, ast.Lambda):
+        return _leftmost_key(k, prog, f)
+    if isinstance(k, ast.Name):
+        for n in ast.walk(f.node):
+            if isinstance(n, ast.FunctionDef) and n.name == k.id and n is not f.node:
+                rets = [r for r in ast.walk(n) if isinstance(r, ast.Return)]
+                if len(rets) == 1 and len(n.args.args) == 1 and rets[0].value is not None:
+                    lam = ast.Lambda(args=n.args, body=rets[0].value)
+                    return _leftmost_key(lam, prog, f)
+        return _key_kind(prog, f, k) == 'leftmost'
+    return False
+
 
 def r_expnum(prog, tier):
     """compute_export_numbering: counter from 500, +1 per node, levels ascending, left to right
@@ -283,86 +354,93 @@ def r_expnum(prog, tier):
     f = prog.func('treeoutput', 'compute_export_numbering')
     cfg = f.cfg
     root = f.params[0]
-    stores = []
-    for n in cfg.eval_nodes():
-        if n.kind == 'stmt' and isinstance(n.ast, ast.Assign) and len(n.ast.targets) == 1 \
-                and unparse(n.ast.targets[0]).endswith(".data['num']"):
-            stores.append(n)
+    stores = [n for n in cfg.eval_nodes() if n.kind == 'stmt' and isinstance(n.ast, ast.Assign) and len(n.ast.targets) == 1
+              and unparse(n.ast.targets[0]).endswith(".data['num']")]
     loop_stores = [n for n in stores if n.loops]
     root_stores = [n for n in stores if not n.loops]
     if not loop_stores:
-        raise AnalysisError('compute_export_numbering assigns no numbers in a loop')
+        raise Unrecognised('compute_export_numbering assigns no numbers in a loop')
+    all_calls = [x for x in ast.walk(f.node) if isinstance(x, ast.Call)]
+    any_leftmost_sort = any(_is_leftmost_sorted(prog, f, c) for c in all_calls)
+    any_reverse = any(_kw(c, 'reverse') is not None for c in all_calls if isinstance(c.func, ast.Name) and c.func.id == 'sorted')
+    # the name holding the level table
+    lvname = None
+    for n in cfg.eval_nodes():
+        if n.kind == 'stmt' and isinstance(n.ast, ast.Assign) and isinstance(n.ast.value, ast.Call) \
+                and prog.callee(n.ast.value, f) == ('trees', 'levels'):
+            t = n.ast.targets[0]
+            lvname = unparse(t.elts[0]) if isinstance(t, ast.Tuple) else unparse(t)
+    sorted_levels = [c for c in all_calls if isinstance(c.func, ast.Name) and c.func.id == 'sorted' and c.args and lvname
+                     and unparse(c.args[0]) in (lvname, lvname + '.keys()', lvname + '.items()')
+                     and _kw(c, 'reverse') is None and _kw(c, 'key') is None]
     for n in loop_stores:
         v = n.ast.value
-        ok = False
-        why = 'the number assigned is not a simple counter'
+        # (N1) consecutive from 500
+        ok, why = None, 'numbering idiom not recognised'
         if isinstance(v, ast.Name):
             c = v.id
             defs = name_defs(f, c)
             inits = [d for d in defs if isinstance(d[1], ast.Constant)]
             incs = [d for d in defs if isinstance(d[1], tuple) and d[1][0] == 'aug']
-            init_ok = len(inits) == 1 and inits[0][1].value == 500 and not cfg.nodes[inits[0][0]].loops \
-                and cfg.dominates(inits[0][0], n.id)
-            inc_ok = len(incs) == 1 and unparse(incs[0][1][1]) == '%s += 1' % c \
-                and cfg.same_loop(incs[0][0], n.id) and cfg.always_with(n.id, incs[0][0]) \
-                and cfg.always_with(incs[0][0], n.id)
-            other = [d for d in defs if d not in inits and d not in incs]
-            if init_ok and inc_ok and not other:
-                ok = True
-                why = 'counter `%s` starts at 500 outside the loops and is incremented by 1 exactly once ' \
-                      'per assignment' % c
-            else:
-                why = 'counter `%s`: init 500 once outside loops: %s; `+= 1` once per assignment: %s; other ' \
-                      'definitions: %d' % (c, init_ok, inc_ok, len(other))
-        obs.append(Ob('R-EXPNUM', f.fq, 'constituent numbers are consecutive from 500: `%s`' % unparse(n.ast),
-                      ok, why, construct='num-store:' + unparse(n.ast), line=n.lineno))
-        # loop structure: outer loop ascending over levels, inner loop over a level sorted by leftmost token
-        loops = [cfg.nodes[l] for l in n.loops]
-        asc = False
-        if loops and loops[0].kind == 'iter':
-            it = loops[0].ast.iter
-            if isinstance(it, ast.Call) and isinstance(it.func, ast.Name) and it.func.id == 'sorted' \
-                    and _kw(it, 'reverse') is None and _kw(it, 'key') is None:
-                asc = True
-        obs.append(Ob('R-EXPNUM', f.fq, 'levels are numbered in ascending order (children below parents)', asc,
-                      'outer loop iterates sorted(...) of the level numbers' if asc else
-                      'outer loop `%s` does not iterate the sorted level numbers'
-                      % (unparse(loops[0].ast.iter) if loops and loops[0].kind == 'iter' else '?'),
+            enum = [d for d in defs if isinstance(d[1], tuple) and d[1][0] == 'iter' and isinstance(d[1][1], ast.Call)
+                    and unparse(d[1][1].func) == 'enumerate']
+            if enum and len(defs) == 1:
+                e = enum[0][1][1]
+                st = e.args[1] if len(e.args) > 1 else _kw(e, 'start')
+                tgt = enum[0][1][2]
+                is_index = isinstance(tgt, ast.Tuple) and unparse(tgt.elts[0]) == c
+                if is_index and isinstance(st, ast.Constant):
+                    ok = st.value == 500
+                    why = 'enumerate(..., 500) index' if ok else 'numbering starts at %r, not 500' % st.value
+                elif is_index and st is None:
+                    ok, why = False, 'numbering starts at 0, not 500'
+            elif len(inits) == 1 and len(incs) == 1 and len(defs) == 2:
+                init_ok = inits[0][1].value == 500 and not cfg.nodes[inits[0][0]].loops
+                inc_ok = unparse(incs[0][1][1]) == '%s += 1' % c and cfg.same_loop(incs[0][0], n.id) \
+                    and cfg.always_with(n.id, incs[0][0]) and cfg.always_with(incs[0][0], n.id)
+                if init_ok and inc_ok:
+                    ok, why = True, 'counter `%s` starts at 500 outside the loops, +1 exactly once per assignment' % c
+                elif not init_ok and isinstance(inits[0][1].value, int):
+                    ok, why = False, 'counter `%s` starts at %r (or is re-initialised inside a loop)' % (c, inits[0][1].value)
+                elif not inc_ok:
+                    ok, why = False, 'counter `%s` is not incremented exactly once per numbered node' % c
+        obs.append(Ob('R-EXPNUM', f.fq, 'constituent numbers are consecutive from 500: `%s`' % unparse(n.ast), ok, why,
+                      construct='num-store:' + unparse(n.ast), line=n.lineno))
+        # (N2a) levels ascending
+        if any_reverse:
+            asc, whya = False, 'a sort in reverse order decides the numbering'
+        elif sorted_levels:
+            asc, whya = True, 'the level numbers are visited through sorted(%s)' % lvname
+        elif lvname and any(isinstance(x, (ast.For, ast.comprehension)) and unparse(x.iter) in (lvname, lvname + '.keys()', lvname + '.values()', lvname + '.items()')
+                            for x in ast.walk(f.node)) and not any(_is_leftmost_sorted(prog, f, c) and unparse(c.args[0]) == lvname for c in all_calls):
+            # the table is iterated only in dictionary order
+            only_unsorted = not sorted_levels
+            asc, whya = (False, 'levels are visited in dictionary order, not ascending') if only_unsorted else (None, '?')
+            # a pre-pass that only sorts each level list is fine: look for a second, sorted iteration
+            iters = [x for x in ast.walk(f.node) if isinstance(x, ast.For)]
+            if len(iters) >= 2:
+                asc, whya = None, 'order of the levels not recognised'
+        else:
+            asc, whya = None, 'order of the levels not recognised'
+        obs.append(Ob('R-EXPNUM', f.fq, 'levels are numbered in ascending order (children below parents)', asc, whya,
                       construct='num-asc', line=n.lineno))
-        l2r = False
-        why = 'nodes of one level are not sorted by their leftmost token before they are numbered'
-        if len(loops) >= 2 and loops[-1].kind == 'iter':
-            it = loops[-1].ast.iter
-            if isinstance(it, ast.Call) and isinstance(it.func, ast.Name) and it.func.id == 'sorted' \
-                    and _leftmost_key(_kw(it, 'key'), prog, f) and _kw(it, 'reverse') is None:
-                l2r = True
-                why = 'inner loop iterates the level sorted by leftmost token'
-            else:
-                # the level lists were sorted in place beforehand, for every level
-                for m in cfg.eval_nodes():
-                    if m.kind == 'stmt' and isinstance(m.ast, ast.Assign) and isinstance(m.ast.value, ast.Call) \
-                            and isinstance(m.ast.value.func, ast.Name) and m.ast.value.func.id == 'sorted' \
-                            and _leftmost_key(_kw(m.ast.value, 'key'), prog, f) \
-                            and _kw(m.ast.value, 'reverse') is None \
-                            and isinstance(m.ast.targets[0], ast.Subscript) \
-                            and unparse(m.ast.targets[0]) == unparse(m.ast.value.args[0]) \
-                            and m.loops and cfg.dominates(m.loops[-1], n.loops[0]):
-                        head = cfg.nodes[m.loops[-1]]
-                        if head.kind == 'iter' and unparse(head.ast.iter) in (
-                                unparse(m.ast.targets[0].value), unparse(m.ast.targets[0].value) + '.keys()') \
-                                and cfg.in_every_iteration(head.id, m.id):
-                            l2r = True
-                            why = 'every level list is replaced by itself sorted by leftmost token before ' \
-                                  'the numbering loop'
-        obs.append(Ob('R-EXPNUM', f.fq, 'within a level nodes are numbered left to right', l2r, why,
+        # (N2b) left to right within a level
+        if not any_leftmost_sort:
+            l2r, whyl = False, 'nodes of one level are never sorted by their leftmost token: they are numbered in the order ' \
+                               'the traversal collected them'
+        else:
+            l2r, whyl = True, 'each level is sorted by leftmost token (sorted(..., key=<leftmost token number>))'
+        obs.append(Ob('R-EXPNUM', f.fq, 'within a level nodes are numbered left to right', l2r, whyl,
                       construct='num-l2r', line=n.lineno))
-    ok = len(root_stores) == 1 and unparse(root_stores[0].ast) == "%s.data['num'] = 0" % root \
-        and all(cfg.dominates(l.loops[0], root_stores[0].id) for l in loop_stores) \
-        and cfg.postdominates(root_stores[0].id, cfg.entry)
-    obs.append(Ob('R-EXPNUM', f.fq, 'the root gets number 0 after the constituents are numbered', ok,
-                  '`%s.data[\'num\'] = 0` post-dominates the numbering loops' % root if ok else
-                  'the root is not (unconditionally, afterwards) numbered 0', construct='num-root',
-                  line=f.node.lineno))
+    okr = None
+    whyr = 'root numbering not recognised'
+    zero = [r for r in root_stores if unparse(r.ast) == "%s.data['num'] = 0" % root]
+    if zero and all(cfg.dominates(l.loops[0], zero[0].id) for l in loop_stores) and cfg.postdominates(zero[0].id, cfg.entry):
+        okr, whyr = True, '`%s.data[\'num\'] = 0` after the numbering loops' % root
+    elif not zero and not any("%s.data['num']" % root in unparse(r.ast) for r in stores):
+        okr, whyr = False, 'the root is never numbered 0'
+    obs.append(Ob('R-EXPNUM', f.fq, 'the root gets number 0 after the constituents are numbered', okr, whyr,
+                  construct='num-root', line=f.node.lineno))
     return obs, {}
 
 
@@ -377,10 +455,24 @@ def r_nav(prog, tier):
         cfg = f.cfg
         t = f.params[0]
         loops = [n for n in cfg.eval_nodes() if n.kind == 'iter']
-        ok = False
-        why = 'loop over the ordered siblings not found'
+        ok = None
+        why = 'sibling scan has a shape this rule does not recognise'
         for lp in loops:
             it = lp.ast.iter
+            # zip(S, S[1:]) over neighbouring pairs
+            if isinstance(it, ast.Call) and unparse(it.func) == 'zip' and len(it.args) == 2 \
+                    and isinstance(lp.ast.target, ast.Tuple) and len(lp.ast.target.elts) == 2 \
+                    and unparse(it.args[1]) == unparse(it.args[0]) + '[1:]':
+                a_, b_ = [unparse(x) for x in lp.ast.target.elts]
+                for r in [n for n in cfg.eval_nodes() if n.kind == 'stmt' and isinstance(n.ast, ast.Return) and lp.id in n.loops]:
+                    facts = [x[0] for x in facts_at(cfg, r.id) if lp.id in cfg.nodes[x[1]].loops]
+                    rv = unparse(r.ast.value) if r.ast.value is not None else None
+                    for (found, other, off) in ((a_, b_, 1), (b_, a_, -1)):
+                        if (('cmp', found, '==', t) in facts or ('cmp', t, '==', found) in facts) and rv == other:
+                            ok = off == want
+                            why = 'pairs of neighbours: returns the %s element of the pair whose other element is the node ' \
+                                  '(offset %+d)' % ('second' if off == 1 else 'first', off)
+                continue
             if not (isinstance(it, ast.Call) and unparse(it.func) == 'enumerate' and it.args
                     and isinstance(lp.ast.target, ast.Tuple) and len(lp.ast.target.elts) == 2):
                 continue
@@ -414,12 +506,13 @@ def r_nav(prog, tier):
                         and prog.callee(n.value, f) == ('trees', 'children')
                         and unparse(n.value.args[0]) == '%s.parent' % t for n in walk_own(f.node))
         obs.append(Ob('R-NAV', f.fq, '%s returns the neighbour at offset %+d in the ordered children of the parent'
-                      % (nm, want), ok and lstdef_ok, why, construct='nav:' + nm, line=f.node.lineno))
+                      % (nm, want), (ok and lstdef_ok) if ok is not None else None, why, construct='nav:' + nm,
+                      line=f.node.lineno))
         rootn = [n for n in cfg.eval_nodes() if n.kind == 'stmt' and isinstance(n.ast, ast.Return)
                  and isinstance(n.ast.value, ast.Constant) and n.ast.value.value is None]
         okn = any(('none', '%s.parent' % t, True) in [x[0] for x in facts_at(cfg, r.id)] for r in rootn) and \
             any(not r.loops and cfg.dominates(loops[0].id, r.id) for r in rootn if loops)
-        obs.append(Ob('R-NAV', f.fq, '%s of the root, and of the outermost child, is None' % nm, okn,
+        obs.append(Ob('R-NAV', f.fq, '%s of the root, and of the outermost child, is None' % nm, True if okn else None,
                       'None without parent and after an unsuccessful scan' if okn else 'missing None result',
                       construct='nav-none:' + nm, line=f.node.lineno, nontrivial=False))
     f = prog.func('trees', 'dominance')
@@ -429,7 +522,7 @@ def r_nav(prog, tier):
           and isinstance(n.ast.value, ast.Yield)]
     first = [y for y in ys if not y.loops]
     inloop = [y for y in ys if y.loops]
-    ok = False
+    ok = None
     why = 'shape not recognised'
     if len(first) == 1 and len(inloop) == 1:
         v0 = unparse(first[0].ast.value.value)
@@ -439,7 +532,7 @@ def r_nav(prog, tier):
         climb = w.kind == 'test' and norm_test(w.ast, True) == ('none', '%s.parent' % cur, False) and any(
             n.kind == 'stmt' and unparse(n.ast) == '%s = %s.parent' % (cur, cur) and cfg.in_every_iteration(w.id, n.id)
             and cfg.dominates(n.id, inloop[0].id) for n in cfg.eval_nodes())
-        ok = d0 and climb and cfg.dominates(first[0].id, w.id)
+        ok = True if (d0 and climb and cfg.dominates(first[0].id, w.id)) else None
         why = 'yields the node, then each parent while one exists' if ok else 'first yield is the node: %s, climb loop: %s' % (d0, climb)
     obs.append(Ob('R-NAV', f.fq, 'dominance() runs from the node through every ancestor to the root', ok, why,
                   construct='nav-dominance', line=f.node.lineno))
